@@ -400,6 +400,9 @@ fn worker_history(rt: &tokio::runtime::Runtime, case: &Case) {
                                     }
                                 }
                                 k += 1;
+                                // the other task's register_node may have rehashed the map: the next
+                                // attempt iterates in the order as it is now
+                                say(format!("P {} {}", i, order_of(&c).await));
                                 let _ = resume.send(());
                             }
                         }
@@ -489,7 +492,8 @@ impl Worker {
 struct ImplRun {
     /// per executed op: result token (`res|A=..|L=..`, or `noreturn`)
     tokens: Vec<String>,
-    /// per executed op: registry iteration order observed before it ("-" when not needed)
+    /// per executed op: registry iteration order observed before it ("-" when not needed); for a
+    /// route with interference also the order at every pause point, separated by '|'
     orders: Vec<String>,
     /// "abort" (child died, e.g. stack overflow -> SIGABRT) or "hang" (watchdog)
     died: Option<String>,
@@ -532,6 +536,13 @@ impl Impl {
                         let i: usize = it.next().unwrap_or("0").parse().unwrap_or(0);
                         run.orders.push(it.next().unwrap_or("-").to_string());
                         open = Some(i);
+                    } else if let Some(rest) = l.strip_prefix("P ") {
+                        let mut it = rest.splitn(2, ' ');
+                        let _ = it.next();
+                        if let Some(last) = run.orders.last_mut() {
+                            last.push('|');
+                            last.push_str(it.next().unwrap_or("-"));
+                        }
                     } else if let Some(rest) = l.strip_prefix("E ") {
                         let mut it = rest.splitn(2, ' ');
                         let _ = it.next();
